@@ -172,7 +172,8 @@ func engineAlias(rep *Report) {
 			if only >= 0 && i != only {
 				continue
 			}
-			aliasCase(rep, arena, s, d, i)
+			guardCase(rep, "C07", "alias", string(s.FullName), i, func() { aliasCase(rep, arena, s, d, i) })
+			arena.prot(syscall.PROT_READ | syscall.PROT_WRITE)
 		}
 	}
 }
